@@ -130,6 +130,11 @@ func RunStrSpace(r *Report, preds SPred, plan strPlan) *SS {
 	r.SetExtra("header_variants", len(hv))
 	r.SetExtra("header_matrix_strings", s.NStrings.Load()-before)
 
+	// ---- phase E: long inputs (length thresholds of fast paths, narrow counters, fixed-size scratch arrays) ----
+	before = s.NStrings.Load()
+	longInputs(s)
+	r.SetExtra("long_input_strings", s.NStrings.Load()-before)
+
 	// bookkeeping
 	r.States.Store(s.NStrings.Load())
 	r.Transitions.Store(s.NStrings.Load() * 4)
@@ -550,4 +555,56 @@ func volumeParse[T comparable, P Object[T]](r *Report, im *Impl[T, P], ms []int,
 		}
 	}, func(idx int, a spec.Assignment, why string) {}, r.TooMany)
 	return n.Load()
+}
+
+// longInputs: every seed padded to lengths around 2^8, 2^9, 2^10, 2^12 and 2^16 with several fillers (a repeated
+// legal element, a repeated separator, letters, blanks, NULs), appended, prepended and inserted in the middle;
+// plus a valid vector repeated many times and element counts around 14, 15, 16, 32, 64, 256.
+func longInputs(s *SS) {
+	targets := []int{127, 128, 129, 254, 255, 256, 257, 258, 511, 512, 513, 1023, 1024, 1025, 4095, 4096, 4097, 65535, 65536, 65537}
+	type job struct {
+		ver  *spec.Version
+		base string
+		fill string
+	}
+	var jobs []job
+	for _, ver := range spec.Versions {
+		a := definedRot(ver, 1)
+		min := ver.Join(elemsOf(ver, a, func(i int) bool { return ver.Mandatory(i) }))
+		max := ver.Join(elemsOf(ver, a, nil))
+		lastOpt := ver.Elem(len(ver.Metrics)-1, int(a[len(a)-1]))
+		for _, base := range []string{min, max} {
+			for _, fill := range []string{"/" + lastOpt, "/", "A", " ", "\x00", "/" + ver.Elem(0, 0), ":", "/ZZ:N", "\xc3\xa9"} {
+				jobs = append(jobs, job{ver, base, fill})
+			}
+		}
+	}
+	Parallel(len(jobs), 16, func(i int) {
+		j := jobs[i]
+		for _, t := range targets {
+			if t <= len(j.base) {
+				continue
+			}
+			n := (t - len(j.base)) / len(j.fill)
+			pad := strings.Repeat(j.fill, n)
+			for _, extra := range []string{"", j.fill[:1]} {
+				p := pad + extra
+				s.EvalD(j.base + p)
+				s.EvalD(p + j.base)
+				mid := len(j.base) / 2
+				s.EvalD(j.base[:mid] + p + j.base[mid:])
+			}
+		}
+		// many elements: the valid vector's element list repeated, cut at interesting counts
+		hdr := j.ver.Header
+		body := strings.TrimPrefix(strings.TrimPrefix(j.base, hdr), "/")
+		el := strings.Split(body, "/")
+		for _, cnt := range []int{13, 14, 15, 16, 17, 31, 32, 33, 63, 64, 65, 255, 256, 257} {
+			var x []string
+			for len(x) < cnt {
+				x = append(x, el...)
+			}
+			s.EvalD(j.ver.Join(x[:cnt]))
+		}
+	})
 }
